@@ -266,9 +266,13 @@ def o14_6(tier):
 def o14_7(tier):
     def h(ctx):
         from .common import mk_vertices, cls, stub_center, KEEP
-        stmts = ctx.fragment(SE, "SurfaceEvolver.create_lattice",
-                             ["cells = {}", "edges_in_cells = set()", "for _, r in self.get_cells().iterrows():", "vertex_to_delete = []",
-                              "for vid, v in vertices.items():", "for i in vertex_to_delete:", "for e in [e for e in edges if e not in edges_in_cells]:"])
+        from fvc.harness import AnchorNotFound
+        head = ["cells = {}", "edges_in_cells = set()", "for _, r in self.get_cells().iterrows():"]
+        tail = ["for i in vertex_to_delete:", "for e in [e for e in edges if e not in edges_in_cells]:"]
+        try:
+            stmts = ctx.fragment(SE, "SurfaceEvolver.create_lattice", head + ["vertex_to_delete = []", "for vid, v in vertices.items():"] + tail)
+        except AnchorNotFound:
+            stmts = ctx.fragment(SE, "SurfaceEvolver.create_lattice", head + ["vertex_to_delete = ["] + tail)      # selection written as a comprehension
         stub_center(ctx)
         E = cls(ctx, "forsys.edge", "SmallEdge")
         ids = [4, 9, 6, 77, 78]
